@@ -21,7 +21,7 @@ RULE = ("case = generated layout (depth <= 4, 10-25 entries incl. look-alikes an
         "directories (relative and absolute -c); then one sub-directory unreadable, TMPDIR on another file system, and (35 %) one "
         "sub-directory of the source tree as the mount point of another file system (other st_dev, EXDEV across it). Non-trivial = layout with at least one out-of-scope decoy carrying a missing "
         "reference and one in-scope file; distinct = case index.")
-PROBES = ["files_older_than_lock", "fifo_named_rs", "hard_link_out_of_scope", "readdir_without_types", "mount_point_in_tree", "config_via_symlink", "exdev_run", "stem_siblings", "unreadable_subdir", "config_in_subdir", "symlink_to_file", "symlink_to_dir", "symlink_outside", "dir_named_rs", "lookalike_ext", "abs_source_dir", "cwd_outside",
+PROBES = ["config_file_is_symlink", "files_older_than_lock", "fifo_named_rs", "hard_link_out_of_scope", "readdir_without_types", "mount_point_in_tree", "config_via_symlink", "exdev_run", "stem_siblings", "unreadable_subdir", "config_in_subdir", "symlink_to_file", "symlink_to_dir", "symlink_outside", "dir_named_rs", "lookalike_ext", "abs_source_dir", "cwd_outside",
           "cwd_root_abs", "empty_scope", "multi_ext", "hidden_rs", "nested_depth4"]
 ASSUMPTIONS = ["source_dir itself is a real directory (not a symlink)"]
 DEADLINE = {"quick": 200, "thorough": 3000}
@@ -119,6 +119,10 @@ def gen(rng):
         # the configuration directory can also be reached through a symbolic link elsewhere: "<link>/../src" must be
         # resolved the way the kernel does it (to proj/src), not by folding the text (to outside/src)
         extra["outside/link_conf"] = {"t": "l", "target": "../proj/" + cfgdir}
+    if not cfgdir and srcform in ("./src", "src", "a/b", "./src/"):
+        # the configuration *file* reached through a symbolic link in another directory (a configuration shared between
+        # crates): its location - and with it source_dir and the lock - is where the link is, not where it points
+        extra["outside/cfg_link.yaml"] = {"t": "l", "target": "../proj/Breadlog.yaml"}
     # a source-like tree under the *working directory* of the other-cwd runs: must never be touched
     extra["outside/src/cwd_decoy.rs"] = {"t": "f", "mode": 0o644, "data": stmt(mk())}
     extra["outside/a/b/cwd_decoy.rs"] = {"t": "f", "mode": 0o644, "data": stmt(mk())}
@@ -373,6 +377,35 @@ def evaluate_mount(wm, seed, base, pick, ctx):
     return viols
 
 
+def evaluate_linked_config_file(wm, seed, base, ctx):
+    """--check with -c naming a symbolic link (outside/cfg_link.yaml -> ../proj/Breadlog.yaml): paths resolve against the
+    directory the link is in, so the files read are those below outside/<source_dir>."""
+    if "outside/cfg_link.yaml" not in wm["extra"]:
+        return []
+    base2 = "outside/" + base[len("proj/"):]
+    scope2 = model_scope(wm, base2)
+    plan = {"seed": seed, "perm": True, "faults": []}
+    knobs = {"cwd": "outside", "config_arg": "rel", "threads": 2, "config_override": "cfg_link.yaml",
+             "dt_unknown": bool(wm.get("dt_unknown"))}
+    run = scen.exec_run(wm, True, plan, knobs, ctx)
+    res = run["res"]
+    if res.mode != "exited":
+        return []
+    ctx.probes["config_file_is_symlink"] += 1
+    rd = opened_for_read(res)
+    viols = []
+    scenario = {"wm": world.wm_to_json(wm), "seed": seed, "base": base, "linked_config_file": True}
+    dg = hashlib.sha256((res.trace_digest() + core.digest_world(run["after"])).encode()).hexdigest()
+    if rd != scope2:
+        viols.append({"signature": "read-set-differs|config-file-symlink", "what": "-c cfg_link.yaml (in outside/, -> ../proj/Breadlog.yaml): "
+                      "read %s, expected the files below %s: %s" % (sorted(rd)[:4], base2, sorted(scope2)[:4]),
+                      "scenario": scenario, "digest": dg})
+    if core.diff_worlds(run["before"], run["after"]):
+        viols.append({"signature": "check-modified-tree|config-file-symlink", "what": str(core.diff_worlds(run["before"], run["after"])[:3]),
+                      "scenario": scenario, "digest": dg})
+    return viols
+
+
 def evaluate_exdev(wm, seed, base, ctx):
     """TMPDIR on another filesystem: every rename out of it fails with EXDEV.  Whatever the tool does about that (fail,
     or fall back to some other way of putting the content in place), out-of-scope paths stay untouched."""
@@ -403,6 +436,7 @@ def run_case(rng, idx, tier, ctx):
     if not viols and scope:
         viols += evaluate_unreadable_dir(wm, seed, base, rng.randrange(2, 7), ctx)
         viols += evaluate_exdev(wm, seed, base, ctx)
+        viols += evaluate_linked_config_file(wm, seed, base, ctx)
         if rng.random() < 0.35:
             viols += evaluate_mount(wm, seed, base, rng.randrange(1000), ctx)
     for t in tags:
@@ -425,6 +459,8 @@ def run_case(rng, idx, tier, ctx):
 
 def replay(scenario, ctx):
     wm = world.wm_from_json(scenario["wm"])
+    if scenario.get("linked_config_file"):
+        return evaluate_linked_config_file(wm, scenario["seed"], scenario["base"], ctx)
     if "mount_pick" in scenario:
         return evaluate_mount(wm, scenario["seed"], scenario["base"], scenario["mount_pick"], ctx)
     if scenario.get("exdev"):
